@@ -180,6 +180,20 @@ def _kernel_sweep(self, tier, seed):
 KernelOnIndex.bounded_checks = _kernel_sweep
 
 
+def _per_index_sweep(self, tier, seed):
+    from contracts.common import native_sweep
+
+    cases = [{"kind": kind, "normalize": nz, "gaussians": 2, "indices": ni} for kind in ("shift", "dispersion") for nz in (True, False) for ni in ((12, 21) if tier == "quick" else (9, 12, 21, 67))]
+
+    def env(case, rng):
+        e = {f"w_{i}": round(rng.uniform(0.3, 1.2), 3) for i in range(2)}
+        e.update({f"s_{i}": round(rng.uniform(0.5, 2.0), 3) for i in range(2)})
+        e.update({"k_0": round(rng.uniform(0.1, 2.0), 3), "wd_0": round(rng.uniform(-0.05, 0.05), 4), "dc_0": 550.0})
+        return e
+
+    return native_sweep(self, cases, envs=env, seed=seed)
+
+
 def _decide(cond, S):
     from pyvc import sym
 
@@ -334,7 +348,7 @@ class ImplementationPerIndex(Contract):
         sp, sv = _params(S, "s", g)
         for i in range(g):
             S.require(L.gt(wv[i], 0), "widths positive")
-        axis = np.array([500.0, 620.0])[:ni]
+        axis = np.array([500.0, 620.0])[:ni] if ni <= 2 else np.linspace(500.0, 620.0, ni)
         rates = S.real_array("k", 1)
         times = S.real_array("t", 1)
         inp = {"cv": cv, "wv": wv, "sv": sv, "axis": axis, "rates": rates, "times": times, "ni": ni}
@@ -406,6 +420,9 @@ class ImplementationPerIndex(Contract):
             got = out["M"][i, 0, 0] if out["dep"] else out["M"][0, 0]
             cells.append(any_shape(got, 0, shapes, (lambda x: x / tot) if case["normalize"] else (lambda x: x)))
         yield "matrix_at_index_i_is_kernel_with_effective_centre_and_width_of_index_i", L.and_(*cells)
+
+
+ImplementationPerIndex.bounded_checks = _per_index_sweep
 
 
 class ConvolutionLemma(Contract):
